@@ -1,9 +1,13 @@
 #!/bin/bash
-# usage: seedrun.sh <seed-id> <check-id> [tier]   - runs one check against a scratch worktree of /repo with the seeded patch applied
+# usage: seedrun.sh <seed-id> <check-id> [tier]   - runs one check against a scratch worktree of /repo with the seeded patch applied.
+# The check runs from a snapshot of /verif (so that work in /verif can go on meanwhile); its evidence goes to /dev/shm (see vlib.write_evidence).
 ID=$1; CHK=$2; TIER=${3:-quick}
 WT=/tmp/seed/run-$ID-$$
+SNAP=/dev/shm/vsnap-$ID-$$
 git -C /repo worktree add -q --detach $WT HEAD || exit 2
 git -C $WT apply /verif/seeded/$ID/patch.diff || { echo "patch does not apply"; git -C /repo worktree remove --force $WT; exit 2; }
-VERIF_REPO=$WT /verif/check $CHK $TIER; RC=$?
+mkdir -p $SNAP && rsync -a --exclude .git --exclude replays --exclude seeded /verif/ $SNAP/
+VERIF_REPO=$WT $SNAP/check $CHK $TIER; RC=$?
 git -C /repo worktree remove --force $WT
+rm -rf $SNAP
 exit $RC
